@@ -2,7 +2,7 @@ SPECIFICATION SpecA
 CONSTANTS
   Ids = {A, B}
   MaxKeys = 2
-  Depth = 7
+  Depth = 6
   MaxLevel = 0
   MaxFaults = 1
   DevScope = FALSE
